@@ -73,6 +73,18 @@ Theorem children_nodup : forall p v, NoDup (children p v).
 Proof. exact children_sorted_nodup. Qed.
 Print Assumptions children_nodup.
 
+(* get_descendants(v, exclude_self=True) removes exactly v, nothing else - for EVERY vertex, leaves included *)
+Theorem descendants_exclude_self :
+  forall p v d, In d (descendants_excl p v) <-> In d (descendants p v) /\ d <> v.
+Proof.
+  intros p v d. unfold descendants_excl. rewrite filter_In, negb_true_iff, Nat.eqb_neq. tauto.
+Qed.
+Print Assumptions descendants_exclude_self.
+
+Theorem descendants_exclude_self_never_contains_self : forall p v, ~ In v (descendants_excl p v).
+Proof. intros p v H. apply descendants_exclude_self in H. destruct H as [_ H]. congruence. Qed.
+Print Assumptions descendants_exclude_self_never_contains_self.
+
 (* (F4) leaf iff no child; root iff self-parent; a root is its own only ancestor *)
 Theorem leaf_iff_no_child : forall p v, isleaf p v = true <-> children p v = [].
 Proof. exact isleaf_spec. Qed.
